@@ -37,7 +37,7 @@ Definition sb_facts_import_unchecked (F : sb_facts) : sb_facts :=
      sbf_hidden_globals := sbf_hidden_globals F; sbf_call_guard := sbf_call_guard F;
      sbf_getfield_checked := sbf_getfield_checked F; sbf_ref_get_checked := sbf_ref_get_checked F;
      sbf_indexer_noinit := sbf_indexer_noinit F; sbf_frame_inherit := sbf_frame_inherit F;
-     sbf_userfunc_unsafe := sbf_userfunc_unsafe F; sbf_var_import_checked := false |}.
+     sbf_userfunc_unsafe := sbf_userfunc_unsafe F; sbf_var_import_checked := false; sbf_purity := sbf_purity F |}.
 Definition sb_n_u := Eval vm_compute in sb_enc "u".
 Definition sb_using_prog : sb_expr := SbVariable sb_n_password [SbVariable sb_n_u []].
 Definition sb_using_st : sb_st :=
@@ -62,3 +62,32 @@ Definition sb_below_frame : sb_frame :=
 Lemma sb_stack_unsandboxed_top_writes :
   sb_protected (snd (sb_eval sb_cur_facts 6 sb_below_frame sb_stack_prog sb_stack_st)) <> sb_protected sb_stack_st.
 Proof. vm_compute. discriminate. Qed.
+
+(* seeded change "intersection sorts its first argument in place": the mutation-capability analysis then no longer
+   establishes System#intersection pure ([sbf_purity] = false for it); the model lets such a native write every shared
+   cell reachable from its arguments, and the sandboxed program `intersection(SbArr, [ 1 ])` changes the global array *)
+Definition sb_facts_purity (F : sb_facts) (n : sb_name) (b : bool) : sb_facts :=
+  {| sbf_exprs := sbf_exprs F; sbf_funcs := sbf_funcs F; sbf_cbguards := sbf_cbguards F; sbf_hidden := sbf_hidden F;
+     sbf_hidden_globals := sbf_hidden_globals F; sbf_call_guard := sbf_call_guard F;
+     sbf_getfield_checked := sbf_getfield_checked F; sbf_ref_get_checked := sbf_ref_get_checked F;
+     sbf_indexer_noinit := sbf_indexer_noinit F; sbf_frame_inherit := sbf_frame_inherit F;
+     sbf_userfunc_unsafe := sbf_userfunc_unsafe F; sbf_var_import_checked := sbf_var_import_checked F;
+     sbf_purity := sb_set_assoc n b (sbf_purity F) |}.
+Definition sb_facts_impure (F : sb_facts) (n : sb_name) : sb_facts := sb_facts_purity F n false.
+Definition sb_n_intersection := Eval vm_compute in sb_enc "System#intersection".
+Definition sb_n_isect := Eval vm_compute in sb_enc "intersection".
+Definition sb_n_SbArr := Eval vm_compute in sb_enc "SbArr".
+Definition sb_isect_prog : sb_expr :=
+  SbFunctionCall (SbVariable sb_n_isect []) [SbVariable sb_n_SbArr []; SbArray [SbLiteral SbLNum]].
+Definition sb_isect_st : sb_st :=
+  {| sbs_shared := [[(sb_n_isect, SbVFun (SbNative sb_n_intersection)); (sb_n_SbArr, SbVObj sb_t_Array (SbShared 1))];
+                    [(0, SbVStr 3); (1, SbVStr 1); (2, SbVStr 2)]];
+     sbs_extern := []; sbs_local := [[]]; sbs_calls := []; sbs_reads := []; sbs_choices := [] |}.
+Lemma sb_impure_native_writes_reachable :
+  sb_reach sb_isect_st [SbVObj sb_t_Array (SbShared 1)] = [1%nat] /\
+  nth 1 (sbs_shared (snd (sb_eval (sb_facts_impure sb_cur_facts sb_n_intersection) 6 sb_filter_frame sb_isect_prog sb_isect_st))) []
+    <> nth 1 (sbs_shared sb_isect_st) [] /\
+  sb_safe_funcs_harmless (sb_facts_impure sb_cur_facts sb_n_intersection) = false /\
+  sb_protected (snd (sb_eval (sb_facts_purity sb_cur_facts sb_n_intersection true) 6 sb_filter_frame sb_isect_prog sb_isect_st))
+    = sb_protected sb_isect_st.
+Proof. vm_compute. repeat split; try reflexivity. discriminate. Qed.
